@@ -122,17 +122,24 @@ type blockCtx struct {
 	inFun     bool
 	funOuter  []string // visible names of the enclosing function (capturable) when inside a nested function
 	funsKnown []string
+	// inSwitch: the innermost breakable construct is a switch case; switchLive are the live variables that must be dead
+	// when a `break` leaves the case (case locals and the outer variables the case has to consume)
+	inSwitch   bool
+	switchLive []string
 }
 
 // block generates a block. `outerLive` are live variables declared outside the block; `required` ⊆ outerLive must be
 // consumed by the block (on every path that falls out of its end), the others must stay untouched. allLive is every live
 // resource of the function (for return). Returns the statements and whether the block ends in a terminator.
-func (g *gen) block(visibleIn []string, outerLive []string, required []string, bc blockCtx) (stmts []Stmt, terminated bool) {
+// The second result says how the block ends: "" falls out of its end, "leave" every path leaves the enclosing switch/function
+// (return, panic, loop jump), "swbreak" ends in a `break` that continues behind the enclosing switch.
+func (g *gen) block(visibleIn []string, outerLive []string, required []string, bc blockCtx) (stmts []Stmt, term string) {
 	visible := append([]string(nil), visibleIn...)
 	live := append([]string(nil), outerLive...) // function-wide live set as seen here
 	var locals []string                          // live locals of this block
 	pending := append([]string(nil), required...)
 	loopLive := append([]string(nil), bc.loopLive...)
+	switchLive := append([]string(nil), bc.switchLive...)
 	n := 1 + g.r.Intn(5)
 	if bc.depth >= g.maxDepth {
 		n = g.r.Intn(3)
@@ -143,12 +150,16 @@ func (g *gen) block(visibleIn []string, outerLive []string, required []string, b
 		locals = remove(locals, v)
 		pending = remove(pending, v)
 		loopLive = remove(loopLive, v)
+		switchLive = remove(switchLive, v)
 	}
 	addLocal := func(v string) {
 		live = append(live, v)
 		locals = append(locals, v)
 		if bc.inLoop {
 			loopLive = append(loopLive, v)
+		}
+		if bc.inSwitch {
+			switchLive = append(switchLive, v)
 		}
 	}
 	emitConsume := func(v string) {
@@ -276,18 +287,23 @@ func (g *gen) block(visibleIn []string, outerLive []string, required []string, b
 			if g.mistakeIf(len(elseReq) > 0, "branch-mismatch") {
 				elseReq = elseReq[1:]
 			}
-			sub2 := blockCtx{depth: bc.depth + 1, inLoop: bc.inLoop, loopLive: loopLive, inFun: bc.inFun, funOuter: bc.funOuter, funsKnown: bc.funsKnown}
+			sub2 := blockCtx{depth: bc.depth + 1, inLoop: bc.inLoop, loopLive: loopLive, inFun: bc.inFun, funOuter: bc.funOuter, funsKnown: bc.funsKnown,
+				inSwitch: bc.inSwitch, switchLive: switchLive}
 			if bound != "" {
 				// the bound variable is declared inside the loop iteration if we are in a loop
 				l2 := remove(append([]string(nil), loopLive...), bound)
 				if bc.inLoop {
 					sub2.loopLive = append(l2, st.V)
 				}
+				if bc.inSwitch {
+					sub2.switchLive = append(remove(append([]string(nil), switchLive...), bound), st.V)
+				}
 			}
-			var tt, et bool
+			var tt, et string
 			st.A, tt = g.block(visThen, liveThen, thenReq, sub2)
 			sub3 := sub2
 			sub3.loopLive = remove(append([]string(nil), loopLive...), bound)
+			sub3.switchLive = remove(append([]string(nil), switchLive...), bound)
 			if st.E {
 				st.B, et = g.block(visible, liveElse, elseReq, sub3)
 			}
@@ -295,8 +311,50 @@ func (g *gen) block(visibleIn []string, outerLive []string, required []string, b
 			for _, v := range sub {
 				markDead(v)
 			}
-			if tt && et && st.E {
-				return stmts, true
+			if tt != "" && et != "" && st.E {
+				if tt == "leave" && et == "leave" {
+					return stmts, "leave"
+				}
+				return stmts, "swbreak"
+			}
+		case k == 15 && bc.depth < g.maxDepth && g.r.Intn(2) == 0: // switch: every case (and the default) consumes the same outer set
+			cs := consumable()
+			var sub []string
+			for _, v := range cs {
+				if g.r.Intn(2) == 0 {
+					sub = append(sub, v)
+				}
+			}
+			ncase := 1 + g.r.Intn(3)
+			hasDefault := len(sub) > 0 || g.r.Intn(2) == 0
+			st := Stmt{K: "switch"}
+			allLeave := hasDefault
+			for ci := 0; ci < ncase+1; ci++ {
+				isDefault := ci == ncase
+				if isDefault && !hasDefault {
+					break
+				}
+				req := append([]string(nil), sub...)
+				if g.mistakeIf(len(req) > 0, "branch-mismatch") {
+					req = req[1:]
+				}
+				sl := append(append([]string(nil), switchLiveFor(bc, switchLive)...), req...)
+				body, tm := g.block(visible, live, req, blockCtx{depth: bc.depth + 1, inLoop: bc.inLoop, loopLive: loopLive, inFun: bc.inFun,
+					funOuter: bc.funOuter, funsKnown: bc.funsKnown, inSwitch: true, switchLive: uniq(sl)})
+				if tm != "leave" {
+					allLeave = false
+				}
+				if len(body) == 0 {
+					body = []Stmt{{K: "break"}} // a switch case needs at least one statement
+				}
+				st.A = append(st.A, Stmt{K: "case", E: isDefault, A: body})
+			}
+			stmts = append(stmts, st)
+			for _, v := range sub {
+				markDead(v)
+			}
+			if allLeave {
+				return stmts, "leave"
 			}
 		case k < 17 && bc.depth < g.maxDepth: // loop: the body may not consume outer resources
 			kind := "while"
@@ -320,8 +378,29 @@ func (g *gen) block(visibleIn []string, outerLive []string, required []string, b
 			if bc.depth == 0 && g.r.Intn(3) > 0 {
 				continue
 			}
-			switch t := g.r.Intn(6); {
+			switch t := g.r.Intn(7); {
+			case t == 6 && bc.inSwitch: // break out of the switch case: everything the case owns must be gone
+				early := g.mistakeIf(len(switchLive) > 0, "early-jump")
+				if !early {
+					for _, v := range append([]string(nil), switchLive...) {
+						if contains(locals, v) || contains(pending, v) {
+							emitConsume(v)
+						}
+					}
+					for len(locals) > 0 {
+						emitConsume(locals[0])
+					}
+					if len(switchLive) > 0 {
+						continue
+					}
+				}
+				stmts = append(stmts, Stmt{K: "break"})
+				return stmts, "swbreak"
 			case t < 2 && bc.inLoop: // break / continue: every resource of the iteration must be gone
+				kind := []string{"break", "continue"}[g.r.Intn(2)]
+				if bc.inSwitch {
+					kind = "continue" // a break here would only leave the switch
+				}
 				early := g.mistakeIf(len(loopLive) > 0, "early-jump")
 				if !early {
 					for _, v := range append([]string(nil), loopLive...) {
@@ -337,8 +416,8 @@ func (g *gen) block(visibleIn []string, outerLive []string, required []string, b
 						continue // something of the iteration is live that this block may not touch
 					}
 				}
-				stmts = append(stmts, Stmt{K: []string{"break", "continue"}[g.r.Intn(2)]})
-				return stmts, true
+				stmts = append(stmts, Stmt{K: kind})
+				return stmts, "leave"
 			case t < 4: // return: every resource of the function must be gone
 				early := g.mistakeIf(len(live) > 0, "early-return")
 				if !early {
@@ -350,10 +429,10 @@ func (g *gen) block(visibleIn []string, outerLive []string, required []string, b
 					}
 				}
 				stmts = append(stmts, Stmt{K: "return"})
-				return stmts, true
-			default:
+				return stmts, "leave"
+			case t < 6:
 				stmts = append(stmts, Stmt{K: "panic"})
-				return stmts, true
+				return stmts, "leave"
 			}
 		}
 	}
@@ -369,14 +448,32 @@ func (g *gen) block(visibleIn []string, outerLive []string, required []string, b
 			stmts = append(stmts, Stmt{K: "destroy", V: v})
 		}
 	}
-	return stmts, false
+	return stmts, ""
+}
+
+// switchLiveFor: a switch nested in a switch case starts a new break target, the outer case's obligations do not apply to
+// a break of the inner switch.
+func switchLiveFor(bc blockCtx, cur []string) []string { return nil }
+
+func uniq(ss []string) []string {
+	var out []string
+	for _, s := range ss {
+		if !contains(out, s) {
+			out = append(out, s)
+		}
+	}
+	return out
 }
 
 func (g *gen) program() *Program {
 	g.types, g.lets = map[string]string{}, map[string]bool{}
 	g.nvar, g.nfun, g.decision, g.defect = 0, 0, 0, ""
 	g.budget = 28
-	body, _ := g.block(nil, nil, nil, blockCtx{})
+	body, term := g.block(nil, nil, nil, blockCtx{})
+	if term == "" && g.r.Intn(8) == 0 {
+		// tail position only: the checker treats the statement as a definite halt and would call anything behind it unreachable
+		body = append(body, Stmt{K: "maybehalt"})
+	}
 	return &Program{Body: body}
 }
 
@@ -478,7 +575,16 @@ func judge(p *Program, knownGap bool) (msg string, cell string, v Verdict, cr ch
 		if len(cr.Other) > 0 {
 			return "", "bad/other-error-only", v, cr
 		}
-		if knownLoopHalt && p.matchesLoopHaltUnsoundness() && allDead(v.Bad) {
+		if knownJumpHalt && p.matchesJumpBeforeHaltUnsoundness() && allLoss(v.Bad) {
+			return "", "bad/accepted-FS46", v, cr
+		}
+		if knownSwitchBreak && p.matchesSwitchBreakUnsoundness() {
+			return "", "bad/accepted-FS45", v, cr
+		}
+		if knownMaybeHalt && p.contains("maybehalt") && allLoss(v.Bad) {
+			return "", "bad/accepted-FS44", v, cr
+		}
+		if knownLoopHalt && p.matchesLoopHaltUnsoundness() && (allDead(v.Bad) || knownMaybeHalt && p.contains("maybehalt")) {
 			return "", "bad/accepted-FS28", v, cr
 		}
 		return fmt.Sprintf("checker ACCEPTS a program with a linearity violation: %s", strings.Join(v.Bad, "; ")), "bad/accepted", v, cr
@@ -495,7 +601,7 @@ func judge(p *Program, knownGap bool) (msg string, cell string, v Verdict, cr ch
 		if knownHaltBranchGap && p.matchesHaltBranchGap() {
 			return "", "good/rejected-FS26", v, cr
 		}
-		if knownHaltGap && v.PanicWithLive && p.hasJump() && onlyLoss(cr.Resource) {
+		if knownHaltGap && (v.PanicWithLive || p.hasExitingScopeWithLocal()) && p.hasJump() && onlyLoss(cr.Resource) {
 			// FS25: once a break/continue was seen (ReturnInfo.MaybeJumped), the scope-end loss check is no longer
 			// suppressed for a block that halts with panic, so a resource that is live at the panic is reported as lost
 			return "", "good/rejected-FS25", v, cr
@@ -510,6 +616,17 @@ func judge(p *Program, knownGap bool) (msg string, cell string, v Verdict, cr ch
 }
 
 var knownHaltGap, knownHaltBranchGap, knownNestedReturnGap, knownLoopHalt, knownLoopReturnJump bool
+
+var knownSwitchBreak, knownMaybeHalt, knownJumpHalt bool
+
+func allLoss(reasons []string) bool {
+	for _, r := range reasons {
+		if !strings.HasPrefix(r, "loss:") {
+			return false
+		}
+	}
+	return len(reasons) > 0
+}
 
 func allDead(reasons []string) bool {
 	for _, r := range reasons {
@@ -607,6 +724,31 @@ func TestC03(t *testing.T) {
 		"oracle finds a violation and no error at all for linear programs. Non-trivial: ≥ 2 resources, ≥ 1 branch or loop, nesting depth ≥ 2. Distinct by program text.")
 	knownGap := rec.Known("FS24")
 	knownHaltGap = rec.Known("FS25") && evid.ReplayFile() == ""
+	replaying := evid.ReplayFile() != ""
+	knownSwitchBreak, knownMaybeHalt = false, false
+	if rec.Known("FS45") && !replaying {
+		m, _, _, _ := judge(&Program{Body: []Stmt{
+			{K: "new", V: "q", T: "R", Let: true},
+			{K: "switch", A: []Stmt{{K: "case", A: []Stmt{{K: "destroy", V: "q"}, {K: "if", A: []Stmt{{K: "break"}}}, {K: "return"}}}}},
+			{K: "destroy", V: "q"},
+		}}, false)
+		rec.ReportKnown("FS45", m != "")
+		knownSwitchBreak = true
+	}
+	knownJumpHalt = false
+	if rec.Known("FS46") && !replaying {
+		m, _, _, _ := judge(&Program{Body: []Stmt{{K: "while", A: []Stmt{
+			{K: "new", V: "q", T: "R", Let: true},
+			{K: "if", E: true, A: []Stmt{{K: "if", A: []Stmt{{K: "break"}}}, {K: "panic"}}, B: []Stmt{{K: "destroy", V: "q"}}},
+		}}}}, false)
+		rec.ReportKnown("FS46", m != "")
+		knownJumpHalt = true
+	}
+	if rec.Known("FS44") && !replaying {
+		m, _, _, _ := judge(&Program{Body: []Stmt{{K: "new", V: "q", T: "R", Let: true}, {K: "maybehalt"}}}, false)
+		rec.ReportKnown("FS44", m != "")
+		knownMaybeHalt = true
+	}
 	knownLoopReturnJump = rec.Known("FS39") && evid.ReplayFile() == ""
 	if knownLoopReturnJump {
 		knownLoopReturnJump = false
@@ -729,6 +871,15 @@ func TestC03(t *testing.T) {
 		}
 		if cell == "good/rejected-FS24" {
 			rec.Excluded("FS24")
+		}
+		if cell == "bad/accepted-FS46" {
+			rec.Excluded("FS46")
+		}
+		if cell == "bad/accepted-FS45" {
+			rec.Excluded("FS45")
+		}
+		if cell == "bad/accepted-FS44" {
+			rec.Excluded("FS44")
 		}
 		if cell == "bad/accepted-FS28" {
 			rec.Excluded("FS28")
